@@ -5,20 +5,6 @@ import GuppyVerif.Lemmas.C13d
 namespace GuppyVerif.Instantiate
 open GuppyVerif
 
-theorem fillP_full : ∀ (a : PInst) (b : List Arg), fillP a (full b) = (fill a b).map full
-  | [], [] => rfl
-  | [], _ :: _ => rfl
-  | some v :: a, b => by
-    simp only [fillP, fill, fillP_full a b, Option.map_map]
-    cases fill a b <;> rfl
-  | none :: a, [] => rfl
-  | none :: a, x :: b => by
-    simp only [full, List.map_cons, fillP, fill, Option.map_map]
-    have := fillP_full a b
-    simp only [full] at this
-    rw [this]
-    cases fill a b <;> rfl
-
 /-- **C13 (two partial steps compose)**: for a closed signature `f`, closed rank-1 arguments in the
     first step `a` and *any* second step `b` that has one entry per parameter kept by `a`: instantiating
     with `a` and then with `b` gives exactly (parameters, preserve flags, comptime args and error outcome
